@@ -49,6 +49,13 @@ def case_variant(rng, s):
     v = "".join(out)
     if v.count("\n") > 0 and ("\n\n" in v or "\n \n" in v or "\n\t\n" in v):
         v = v.replace("\n", " ")
+    # a line break inside a label is a blank only while the next line stays paragraph text: what follows it must not be able to
+    # start a block (bullet / ordered marker, thematic break, setext underline) - keep the break only in front of a letter
+    parts = v.split("\n")
+    v = parts[0]
+    for nxt in parts[1:]:
+        head = nxt.lstrip(" \t")[:1]
+        v += ("\n" if head.isalpha() else " ") + nxt
     return v
 
 
